@@ -15,5 +15,7 @@ CONSTANTS
   PreCheckClosed = TRUE
   NilPacketSock = TRUE
   CloseWaits = TRUE
+  ErrAware = TRUE
+  AcceptErrors = 1
 INVARIANTS NoBadEvent CleanAfterAllClosed
 VIEW View
